@@ -28,6 +28,10 @@ checks = {
    "Generated tables with a unique id per row are sorted and cut by the real query pipeline (incl. the parallel path, --cpu 2..8 on 160..700 rows); an online oracle checks permutation-ness, absence of adjacent inversions under an independent comparator, equality with a reference sort for total orders, and exact LIMIT/OFFSET/PERCENT/WITH TIES arithmetic at boundary parameters.",
    "Trusts the harness comparator (numbers, datetimes, upper-cased trimmed text, NULL position defaults from the manual). Negative limits/offsets judged as 0, PERCENT>100 as 100.",
    "runtime monitor: sortedness/permutation/cut oracle over executed queries with unique row ids"),
+ "C08": ("fault_enumeration", "§5 C08",
+   "The complete product statement kind (10) x failure kind (7) x failing row k (5) x table state (never loaded / SELECTed / FOR UPDATE / already dirty / temporary) x size (5 rows, 200 rows with --cpu 4) is walked (3500 combinations, ~1500 valid and really failing). Each runs in one real in-process transaction: typed snapshot of every table, the failing statement, snapshot again, no file or control file left by a failed CREATE TABLE, then COMMIT and reload from disk; cancellation is injected by cancelling the statement's context at the k-th worker-hook hit.",
+   "Failures are produced by the data (division by zero at row k, short VALUES row, two-row sub-query, user function TRIGGER ERROR at its k-th call, duplicate join partner, unknown field) or by the cancellation hook; combinations that do not fail are counted as trivial.",
+   "runtime fault injection (data-driven failures at row k, hook-driven cancellation) + before/after state monitor"),
  "C09": ("exploration", "§5 C09",
    "(a) Stress: 12 client loops of real csvq processes run increment / FOR UPDATE / ROLLBACK / read / short-timeout transactions on one table with delays injected inside the lock protocol; offline monitors over the merged hook trace and the results check hold-interval overlap, conservation, exactly-once, timeout-changes-nothing and (porcupine) linearizability. (b) Systematic schedules: 2..3 real processes run under a step controller that serialises every hook point of acquisition, commit and release through FIFOs; two-role schedules are enumerated as bit strings over the first 14 decision points, three-role ones explored with bounded random preemption; after each step the believed-holder set must be compatible and at the end the table must reflect every committed writer.",
    "Observed schedules only: bounded decision depth, step cap and a wall-clock watchdog (firing = inconclusive). Either protection layer (lock files or flock) may exclude; only real overlaps / lost updates are judged.",
